@@ -31,10 +31,12 @@ def register(w):
         c.ens("forall[int](lambda i: implies(0 <= i and i < len(result) - 1, result[i + 1].parent == result[i]), lambda i: (result[i], result[i + 1]))", label="parent-child-chain")
         c.ens("forall[int](lambda i: implies(0 <= i and i < len(result), result[i] != None and anc(to_state, result[i]) and result[i] != stop_at))", label="members-are-ancestors-below-stop")
         c.ens("implies(len(result) >= 1, result[0].parent == stop_at or result[0].parent == None)", label="starts-below-stop-or-at-root")
+        c.ens("implies(len(result) >= 1 and stop_at != None and anc(to_state, stop_at), result[0].parent == stop_at)", label="starts-just-below-a-stop-that-is-an-ancestor")
         c.ens("forall[int](lambda i: implies(0 <= i and i < len(result), result[i].depth == to_state.depth - (len(result) - 1 - i)))", label="depths-consecutive")
         c.loop(0, inv=[
             "len(path) >= 0",
             "current == None or anc(to_state, current)",
+            "implies(stop_at != None and anc(to_state, stop_at), current != None and anc(current, stop_at))",
             "implies(len(path) == 0, current == to_state)",
             "implies(len(path) >= 1, path[0] == to_state and path[len(path) - 1].parent == current)",
             "forall[int](lambda i: implies(0 <= i and i < len(path) - 1, path[i].parent == path[i + 1]))",
